@@ -23,6 +23,9 @@ import (
 
 func init() {
 	Register(&Scenario{Prop: "C17", Name: "ro-mount", Strict: true, Quick: 10, Thorough: 10, Run: runC17})
+	// mode B: the same programs from more callers, scheduler off and real parallelism, for the -race build (the
+	// request paths that never reach a store call have no seam the scheduler could interleave)
+	Register(&Scenario{Prop: "C17", Name: "race-stress", Strict: false, Quick: 0, Thorough: 0, NoBubble: true, Run: runC17})
 }
 
 // internalFS reaches the unexported fsInternal field of ReadOnlyFS / MutableFS: the file-system logic the FUSE
@@ -157,7 +160,10 @@ func runC17(rc *RunCtx) *simkit.Violation {
 	if faulty {
 		w.Faults = &simkit.FaultCfg{Err: 120, Budget: 2, Eligible: func(c *simkit.Call) bool { return c.Client == mc && c.Op == simkit.OpGet }}
 	}
-	nCallers := t.Range(1, 4)
+	nCallers, progMax := t.Range(1, 4), 10
+	if w.Cfg.Immediate {
+		nCallers, progMax = t.Range(4, 8), 40
+	}
 	allPaths := append([]string{}, tree.paths()...)
 	for dpath := range tm.isDir {
 		if dpath != "" {
@@ -173,7 +179,7 @@ func runC17(rc *RunCtx) *simkit.Violation {
 			a, b int
 		}
 		var prog []step
-		for i := 0; i < t.Range(2, 10); i++ {
+		for i := 0; i < t.Range(2, progMax); i++ {
 			st := step{kind: t.Choose(4)}
 			if len(allPaths) > 0 && t.Bool(4, 5) {
 				st.path = allPaths[t.Choose(len(allPaths))]
